@@ -25,6 +25,7 @@ TRUSTED_BASE = [
     "hand-written Lean model of the code; tied to /repo by the differential correspondence run of this check (sampled, not proved)",
     "harness/extract.py (table translator) and the bpdriver line parser/printer",
     "harness/extract_src.py (source translator: Python AST of the codec primitives -> lean/BpProofs/Gen/SrcCodec.lean, re-run on every check) and lean/BpProofs/PyPrelude.lean (what the Python primitives it maps to mean)",
+    "harness/extract_srctime.py (source translator: Python AST of the _Duration / _Timestamp methods -> lean/BpProofs/Gen/SrcTime.lean, re-run on every check) and lean/BpProofs/PyPreludeTime.lean (datetime / timedelta as microsecond counts, the float intrinsics; validated by harness/tests/check_srctime.py)",
     "that each Lean statement in lean/BpProofs/Props says what the English property says",
 ]
 
